@@ -38,13 +38,26 @@ struct FuncInfo { std::string name; int na = 0, nd = 0; bool fuel = false; bool 
 // Parameter kinds ("ps", one letter per parameter in declaration order; integer parameters are numbered a0.. and
 // floating-point ones d0.. in order of appearance):  q i64, i i32, u u32, b i8, B u8, w i16, W u16;  d double, f float, l long double.
 // Result kind "rt": q i64 (default), d, f, l -- the i64 result is masked to what the type holds exactly and converted.
+// Block (by-value aggregate) kinds take an integer argument v like an integer parameter; the caller spreads it over the
+// fields (field j holds v + j; a double field holds ((v + j) & 0xffff) converted), the callee folds them back:
+// a_k = sum (j + 1) * field j.   S {i64} T {i64,i64} P {d,d} M {i64,d} N {d,i64} G {i64,i64,i64 -- passed in memory}
 static inline bool int_kind(char c) { return c != 'd' && c != 'f' && c != 'l'; }
+struct BlkInfo { const char *mir; int size; const char *fields; };
+static inline const BlkInfo *blk_info(char c) {
+  static const BlkInfo S_ = {"blk1", 8, "q"}, T_ = {"blk1", 16, "qq"}, P_ = {"blk2", 16, "dd"}, M_ = {"blk3", 16, "qd"}, N_ = {"blk4", 16, "dq"}, G_ = {"blk", 24, "qqq"};
+  switch (c) { case 'S': return &S_; case 'T': return &T_; case 'P': return &P_; case 'M': return &M_; case 'N': return &N_; case 'G': return &G_; default: return nullptr; }
+}
+static inline bool blk_kind(char c) { return blk_info(c) != nullptr; }
+static inline bool has_blk(const std::string &ps) { for (char c : ps) if (blk_kind(c)) return true; return false; }
+static inline uint64_t blk_field(char fk, int64_t v, int j) { uint64_t raw = (uint64_t) v + (uint64_t) j; return fk == 'q' ? raw : (raw & 0xffff); }
 static inline std::string default_ps(int na, int nd) { return std::string((size_t) na, 'q') + std::string((size_t) nd, 'd'); }
 static inline std::string ps_of(const Json &f) { std::string p = f.gets("ps", ""); return p.empty() ? default_ps((int) f.geti("na"), (int) f.geti("nd")) : p; }
 static inline char rt_of(const Json &f) { std::string p = f.gets("rt", ""); return p.empty() ? 'q' : p[0]; }
 static inline const char *mir_ty(char c) { switch (c) { case 'i': return "i32"; case 'u': return "u32"; case 'b': return "i8"; case 'B': return "u8"; case 'w': return "i16"; case 'W': return "u16"; case 'd': return "d"; case 'f': return "f"; case 'l': return "ld"; default: return "i64"; } }
-static inline const char *c_ty(char c) { switch (c) { case 'i': return "int"; case 'u': return "unsigned int"; case 'b': return "signed char"; case 'B': return "unsigned char"; case 'w': return "short"; case 'W': return "unsigned short"; case 'd': return "double"; case 'f': return "float"; case 'l': return "long double"; default: return "long long"; } }
-static inline int64_t narrow(char c, int64_t v) { switch (c) { case 'i': return (int32_t) v; case 'u': return (int64_t) (uint32_t) v; case 'b': return (int8_t) v; case 'B': return (uint8_t) v; case 'w': return (int16_t) v; case 'W': return (uint16_t) v; default: return v; } }
+static inline const char *c_ty(char c) { switch (c) { case 'S': return "struct dsl_bS"; case 'T': return "struct dsl_bT"; case 'P': return "struct dsl_bP"; case 'M': return "struct dsl_bM"; case 'N': return "struct dsl_bN"; case 'G': return "struct dsl_bG"; case 'i': return "int"; case 'u': return "unsigned int"; case 'b': return "signed char"; case 'B': return "unsigned char"; case 'w': return "short"; case 'W': return "unsigned short"; case 'd': return "double"; case 'f': return "float"; case 'l': return "long double"; default: return "long long"; } }
+static inline int64_t narrow(char c, int64_t v) {
+  if (const BlkInfo *b = blk_info(c)) { uint64_t r = 0; for (int j = 0; b->fields[j]; j++) r += (uint64_t) (j + 1) * blk_field(b->fields[j], v, j); return (int64_t) r; }
+  switch (c) { case 'i': return (int32_t) v; case 'u': return (int64_t) (uint32_t) v; case 'b': return (int8_t) v; case 'B': return (uint8_t) v; case 'w': return (int16_t) v; case 'W': return (uint16_t) v; default: return v; } }
 static inline uint64_t rt_mask(char rt) { return rt == 'd' ? (1ull << 48) - 1 : rt == 'f' ? (1ull << 20) - 1 : rt == 'l' ? (1ull << 62) - 1 : ~0ull; }
 // the mixed-kind external `extm` (integers beyond the 6 registers, floats, doubles and long doubles on the stack)
 static inline uint64_t extm_value(int64_t s) {
@@ -70,13 +83,15 @@ template <class F> static inline void for_each_block_mut(Json &st, F fn) {
 template <class F> static inline void walk(const Json &body, F fn) {  // fn(stmt) for every statement, depth first
   for (auto &st : body.a) { fn(st); for_each_block(st, [&](const Json &b) { walk(b, fn); }); }
 }
+static inline std::string mir_param(char c, const std::string &name) { if (const BlkInfo *b = blk_info(c)) return S("%s:%d(%s)", b->mir, b->size, name.c_str()); return std::string(mir_ty(c)) + ":" + name; }
+static const char *C_BLK_DECLS = "struct dsl_bS { long long x; }; struct dsl_bT { long long x, y; }; struct dsl_bP { double x, y; }; struct dsl_bM { long long x; double y; }; struct dsl_bN { double x; long long y; }; struct dsl_bG { long long x, y, z; };\n";
 static inline std::string proto_name(const std::string &ps, char rt) { return std::string("p_") + rt + "_" + ps; }
 
 // ------------------------------------------------------------------------------------------------ MIR text emitter
 struct MirEmitter {
   std::string out; std::vector<std::string> pend; int lab = 0; const Json *fn = nullptr; std::string fname;
   std::vector<std::pair<std::string, std::vector<std::string>>> lrefs;  // table name -> labels
-  std::set<std::string> called, icalled; std::set<std::pair<std::string, char>> protos; bool uses_ext = false, uses_mem = false, uses_extm = false; std::set<int> extn_sizes; std::set<std::string> data_used;
+  std::set<std::string> called, icalled; std::set<std::pair<std::string, char>> protos; bool uses_ext = false, uses_mem = false, uses_extm = false, uses_blk = false; std::set<int> extn_sizes; std::set<std::string> data_used;
   const std::map<std::string, FuncInfo> *sigs = nullptr;
   int loop_depth = 0;
 
@@ -105,9 +120,18 @@ struct MirEmitter {
     auto it = sigs->find(callee); const std::string &ps = it->second.ps; char rt = it->second.rt;
     protos.insert({ps, rt});
     std::string s = "call " + proto_name(ps, rt) + ", " + target + ", " + (rt == 'q' ? dst : rt == 'd' ? std::string("rd") : rt == 'f' ? std::string("rf") : std::string("rl"));
-    int ai = 0, di = 0;
+    int ai = 0, di = 0, bi = 0;
     for (char c : ps) {
-      if (int_kind(c)) { s += ", " + (ai < (int) args.size() ? opnd(args[ai]) : std::string("0")); ai++; }
+      if (const BlkInfo *b = blk_info(c)) {  // build the aggregate in this function's block area and pass it by value
+        std::string v = ai < (int) args.size() ? opnd(args[ai]) : std::string("0"), pb = S("pb%d", bi); ai++; uses_blk = true;
+        insn("add " + pb + ", bbuf, " + std::to_string(32 * bi)); bi++;
+        for (int j = 0; b->fields[j]; j++) {
+          insn("mov t1, " + v); insn("add t1, t1, " + std::to_string(j));
+          if (b->fields[j] == 'q') insn(S("mov i64:%d(%s), t1", 8 * j, pb.c_str()));
+          else { insn("and t1, t1, 65535"); insn("i2d fd0, t1"); insn(S("dmov d:%d(%s), fd0", 8 * j, pb.c_str())); }
+        }
+        s += ", " + mir_param(c, pb);
+      } else if (int_kind(c)) { s += ", " + (ai < (int) args.size() ? opnd(args[ai]) : std::string("0")); ai++; }
       else { s += S(", %d.0%s", 2 + di, c == 'f' ? "f" : c == 'l' ? "l" : ""); di++; }
     }
     insn(s);
@@ -192,21 +216,27 @@ struct MirEmitter {
     } else if (k == "ret") ret_block(st[1]);
   }
   std::string func(const Json &f) {
-    fn = &f; fname = f.gets("name"); out.clear(); pend.clear(); lab = 0; loop_depth = 0; uses_mem = false;
+    fn = &f; fname = f.gets("name"); out.clear(); pend.clear(); lab = 0; loop_depth = 0; uses_mem = false; uses_blk = false;
     std::string ps = ps_of(f); char rt = rt_of(f);
     std::string head = fname + ":\tfunc " + mir_ty(rt);
-    { int ai = 0, di = 0; for (char c : ps) { if (int_kind(c)) head += S(", %s:a%d", mir_ty(c), ai++); else head += S(", %s:d%d", mir_ty(c), di++); } }
+    { int ai = 0, di = 0; for (char c : ps) { if (int_kind(c)) head += ", " + mir_param(c, S("a%d", ai++)); else head += S(", %s:d%d", mir_ty(c), di++); } }
     stmts(f.at("body"));
     if (!pend.empty()) ret_block(Json(0));
     std::string body_txt = out; out.clear();
     for (int i = 0; i < NLOC; i++) insn(S("mov v%d, 0", i));
     insn("mov t2, 0");
     if (uses_mem) insn("alloca buf, 64");
+    if (uses_blk) insn("alloca bbuf, 128");
+    { int ai = 0; for (char c : ps) { if (const BlkInfo *b = blk_info(c)) {  // the parameter variable holds the address of the copy: fold the fields into its value
+        std::string a = S("a%d", ai); insn("mov t0, 0");
+        for (int j = 0; b->fields[j]; j++) { if (b->fields[j] == 'q') insn(S("mov t1, i64:%d(%s)", 8 * j, a.c_str())); else { insn(S("dmov fd0, d:%d(%s)", 8 * j, a.c_str())); insn("d2i t1, fd0"); } insn("mul t1, t1, " + std::to_string(j + 1)); insn("add t0, t0, t1"); }
+        insn("mov " + a + ", t0"); }
+      if (int_kind(c)) ai++; } }
     { int di = 0; for (char c : ps) if (!int_kind(c)) { insn(S("%s t0, d%d", c == 'd' ? "d2i" : c == 'f' ? "f2i" : "ld2i", di++)); insn("add v0, v0, t0"); } }
     if (f.geti("fuel")) { std::string ls = newlab(); insn("bgt " + ls + ", a0, 0"); ret_block(Json(7)); label(ls); insn("mov t2, t2"); }
     std::string pro = out; out.clear();
     if (f.geti("gv")) { head += "\n\tglobal i64:gvr:r8"; pro = "\tmov gvr, " + std::to_string((long long) f.geti("gv")) + "\n" + pro + "\tadd v0, v0, gvr\n"; }
-    return head + "\n\tlocal i64:x1, i64:x2, i64:x3, d:fd0, d:fd1, f:ff0, ld:fl0, d:rd, f:rf, ld:rl, i64:v0, i64:v1, i64:v2, i64:v3, i64:v4, i64:v5, i64:t0, i64:t1, i64:t2, i64:p, i64:buf, i64:lc0, i64:lc1, i64:lc2\n" + pro + body_txt + "\tendfunc\n";
+    return head + "\n\tlocal i64:x1, i64:x2, i64:x3, d:fd0, d:fd1, f:ff0, ld:fl0, d:rd, f:rf, ld:rl, i64:v0, i64:v1, i64:v2, i64:v3, i64:v4, i64:v5, i64:t0, i64:t1, i64:t2, i64:p, i64:buf, i64:bbuf, i64:pb0, i64:pb1, i64:pb2, i64:lc0, i64:lc1, i64:lc2\n" + pro + body_txt + "\tendfunc\n";
   }
   // whole module; `all` maps every function name of the *program* to its signature
   std::string module(const Json &m, const std::map<std::string, FuncInfo> &all) {
@@ -235,7 +265,7 @@ struct MirEmitter {
     for (auto &i : imports) r += "\timport " + i + "\n";
     if (!fwd_first) for (auto &f : m.at("funcs").a) if (need_fwd.count(f.gets("name"))) r += "\tforward " + f.gets("name") + "\n";
     for (auto &l : all_lrefs) r += "\tforward " + l.first + "\n";
-    for (auto &p : protos) { r += proto_name(p.first, p.second) + ":\tproto " + mir_ty(p.second); int ai = 0, di = 0; for (char c : p.first) { if (int_kind(c)) r += S(", %s:a%d", mir_ty(c), ai++); else r += S(", %s:d%d", mir_ty(c), di++); } r += "\n"; }
+    for (auto &p : protos) { r += proto_name(p.first, p.second) + ":\tproto " + mir_ty(p.second); int ai = 0, di = 0; for (char c : p.first) { if (int_kind(c)) r += ", " + mir_param(c, S("a%d", ai++)); else r += S(", %s:d%d", mir_ty(c), di++); } r += "\n"; }
     if (uses_extm) r += "p_extm:\tproto i64, i64:t, f:x, ld:y, i32:n, d:z, u8:b, ld:w, i64:s, f:x2, i16:h, i64:p, u32:q, i64:last\n";
     if (uses_ext) r += "p_ext:\tproto i64, i64:t, i64:v\n";
     for (int n : extn_sizes) { r += S("p_extn_%d:\tproto i64, i64:n", n); for (int i = 1; i <= n; i++) r += S(", i64:a%d", i); r += "\n"; }
@@ -270,14 +300,24 @@ struct CEmitter {
   }
   void stmts(const Json &b) { for (auto &st : b.a) stmt(st); }
   void call(const std::string &target, const Json &dst, const std::string &callee, const Json &args, const std::map<std::string, FuncInfo> &sigs) {
-    auto &fi = sigs.at(callee); ind(); out += opnd(dst) + " = (long long) " + target + "(";
-    int ai = 0, di = 0, k = 0;
+    auto &fi = sigs.at(callee); ind(); bool hb = has_blk(fi.ps);
+    if (hb) {  // aggregates are built in named temporaries
+      out += "{ "; int ai = 0, bi = 0;
+      for (char c : fi.ps) { if (const BlkInfo *b = blk_info(c)) {
+          std::string v = ai < (int) args.size() ? U(args[ai]) : std::string("0ULL"); out += std::string(c_ty(c)) + S(" b%d = {", bi++);
+          for (int j = 0; b->fields[j]; j++) out += std::string(j ? ", " : "") + (b->fields[j] == 'q' ? "(long long)(" + v + " + " + std::to_string(j) + "ULL)" : "(double)((" + v + " + " + std::to_string(j) + "ULL) & 65535ULL)");
+          out += "}; "; }
+        if (int_kind(c)) ai++; }
+    }
+    out += opnd(dst) + " = (long long) " + target + "(";
+    int ai = 0, di = 0, k = 0, bi = 0;
     for (char c : fi.ps) {
       if (k++) out += ", ";
-      if (int_kind(c)) { out += ai < (int) args.size() ? opnd(args[ai]) : std::string("0LL"); ai++; }
+      if (blk_kind(c)) { out += S("b%d", bi++); ai++; }
+      else if (int_kind(c)) { out += ai < (int) args.size() ? opnd(args[ai]) : std::string("0LL"); ai++; }
       else { out += S("%d.0%s", 2 + di, c == 'f' ? "f" : c == 'l' ? "L" : ""); di++; }
     }
-    out += ");\n";
+    out += hb ? "); }\n" : ");\n";
   }
   const std::map<std::string, FuncInfo> *sigs = nullptr;
   void stmt(const Json &st) {
@@ -334,11 +374,12 @@ struct CEmitter {
            "static long long dsl_helper(dsl_t s, int n) {\n  static int cnt; dsl_u u; cnt++; u.q = s.b;\n"
            "  switch (n) { case DSL_A: return s.b; case DSL_B: return dsl_str[n] + (long long) sizeof (dsl_t); default: return s.a + dsl_tab_" + mn + "[n & 3] + u.bytes[0] + dsl_tent + cnt * 0; }\n}\n"
            "static long long dsl_fwd(dsl_t s, int n) { dsl_t t = s; t.a += n; return n > 0 ? dsl_fwd(t, n - 1) : dsl_helper(t, DSL_C); }\n";
+    { bool ub = false; for (auto &kv : all) if (has_blk(kv.second.ps)) ub = true; if (ub) r += C_BLK_DECLS; }
     r += "extern long long ext(long long, long long);\n";
     { bool um = false; for (auto &f : m.at("funcs").a) walk(f.at("body"), [&](const Json &st) { if (st[0].s == "extm") um = true; });
       if (um) r += "extern long long extm(long long, float, long double, int, double, unsigned char, long double, long long, float, short, long long, unsigned int, long long);\n"; }
     std::set<std::string> defined; for (auto &f : m.at("funcs").a) defined.insert(f.gets("name"));
-    auto plist = [&](const FuncInfo &fi, bool names) { std::string s; int ai = 0, di = 0, k = 0; for (char c : fi.ps) { if (k++) s += ", "; s += c_ty(c); if (names) s += int_kind(c) ? S(" a%d", ai++) : S(" d%d", di++); } if (fi.ps.empty()) s += "void"; return s; };
+    auto plist = [&](const FuncInfo &fi, bool names) { std::string s; int ai = 0, di = 0, k = 0; for (char c : fi.ps) { if (k++) s += ", "; s += c_ty(c); if (names) s += blk_kind(c) ? S(" s%d", ai++) : int_kind(c) ? S(" a%d", ai++) : S(" d%d", di++); } if (fi.ps.empty()) s += "void"; return s; };
     auto proto = [&](const FuncInfo &fi) { return std::string(c_ty(fi.rt)) + " " + fi.name + "(" + plist(fi, true) + ")"; };
     std::set<std::string> used, ic;
     for (auto &f : m.at("funcs").a) walk(f.at("body"), [&](const Json &st) { if (st[0].s == "call" || st[0].s == "icall") used.insert(st[2].s); if (st[0].s == "icall") ic.insert(st[2].s); });
@@ -348,6 +389,11 @@ struct CEmitter {
     for (auto &f : m.at("funcs").a) {
       fn = &f; depth = 0; out.clear(); auto &fi = all.at(f.gets("name"));
       r += (f.geti("exp", 1) ? "" : "static ") + proto(fi) + " {\n  long long v0 = 0, v1 = 0, v2 = 0, v3 = 0, v4 = 0, v5 = 0; char buf[64];\n  (void) v1; (void) v2; (void) v3; (void) v4; (void) v5; (void) buf;\n";
+      { int ai = 0; for (char c : fi.ps) { if (const BlkInfo *b = blk_info(c)) {
+          static const char *fn_[] = {"x", "y", "z"}; r += S("  long long a%d = (long long)(0ULL", ai);
+          for (int j = 0; b->fields[j]; j++) r += S(" + (unsigned long long)(long long) s%d.%s * %dULL", ai, fn_[j], j + 1);
+          r += S("); (void) a%d;\n", ai); }
+        if (int_kind(c)) ai++; } }
       if (cdecls) r += "  { dsl_t s = {1, 2, \"ab\"}; v0 += dsl_fwd(s, 2) * 0; }\n";
       if (f.geti("gv")) r += "  v0 += " + std::to_string((long long) f.geti("gv")) + "LL;\n";
       for (int i = 0; i < fi.nd; i++) r += S("  v0 += (long long) d%d;\n", i);
@@ -437,7 +483,7 @@ struct Model {
 // ------------------------------------------------------------------------------------------------ generator
 struct GenOpts {
   int nmods = 2, nfuncs = 3, body = 6; bool lref = true, jt = true, icall = true, ext = true, mem = true, loops = true, doubles = true, recursion = true, sw = true;
-  int max_na = 8; int sw_weight = 8; bool blocked = false, wide = false; bool gvar = true, fpbranch = true, ldiff = true, extn = false, typed = false, extm = false;
+  int max_na = 8; int sw_weight = 8; bool blocked = false, wide = false; bool gvar = true, fpbranch = true, ldiff = true, extn = false, typed = false, extm = false, blocks = false;
 };
 struct Generator {
   Rng &r; GenOpts o; std::vector<FuncInfo> fs; int cur = 0; int depth = 0; bool in_loop = false;
@@ -504,7 +550,8 @@ struct Generator {
         bool stacky = r.chance(1, 3);   // more integers than integer registers (or more doubles than SSE registers) followed by long doubles: everything meets on the stack
         if (stacky) { if (r.chance(2, 3)) fi.na = (int) r.range(7, 8); else fi.nd = (int) r.range(9, 10); if (fi.nd == 0) fi.nd = (int) r.range(1, 3); }
         static const char ik[] = "qqqiubBwW", fk[] = "ddfl"; std::string ints, fps;
-        for (int k = 0; k < fi.na; k++) ints += (k == 0 && fi.fuel) ? 'q' : ik[r.below(9)];
+        int nblk = 0;
+        for (int k = 0; k < fi.na; k++) { bool blk = o.blocks && nblk < 3 && !(k == 0 && fi.fuel) && r.chance(1, 4); if (blk) nblk++; ints += (k == 0 && fi.fuel) ? 'q' : blk ? "STPMNG"[r.below(6)] : ik[r.below(9)]; }
         for (int k = 0; k < fi.nd; k++) fps += fk[r.below(4)];
         if (stacky) fps[fps.size() - 1] = 'l';
         size_t a = 0, b = 0; while (a < ints.size() || b < fps.size()) { bool ti = b >= fps.size() || (a < ints.size() && r.coin()); if (a == 0 && fi.fuel) ti = true; if (stacky && b + 1 == fps.size() && a < ints.size()) ti = true; fi.ps += ti ? ints[a++] : fps[b++]; }  // (stacky: the last long double comes after all integers)
